@@ -4,7 +4,7 @@ from lib import *
 import progen
 import runlib
 
-THEOREMS = ["Types.wellformed_inside", "Types.accepted_positions_wellformed", "Types.variable_types", "Types.extern_abi",
+THEOREMS = ["Sem.function_order_irrelevant", "Sem.interp_congr", "Types.wellformed_inside", "Types.accepted_positions_wellformed", "Types.variable_types", "Types.extern_abi",
             "Order.cycle_detected", "Order.cycle_perm_invariant", "Order.reach_snoc", "Order.foundContainer_step"]
 
 LEAFS = ["void", "i32", "u8", "i128", "bool", "char8", "usize", "struct", "word"]
